@@ -626,7 +626,39 @@ def run_xproc(cases, hashseeds=("1", "2")):
     return recs
 
 
+CASE_TIMEOUT_S = 90
+
+
+class CaseTimeout(BaseException):
+    pass
+
+
 def _dispatch(case):
+    """one case under a wall-clock limit: a run that does not come back is recorded as such (optimize() must terminate)"""
+    import signal
+
+    def on_alarm(signum, frame):
+        raise CaseTimeout()
+    old_handler = None
+    try:
+        old_handler = signal.signal(signal.SIGALRM, on_alarm)
+        # (configurations below the documented scale are only looked at when they complete: a short limit is enough)
+        signal.alarm(10 if str(case.get("scale", "")).startswith("small") else CASE_TIMEOUT_S)
+    except ValueError:          # not in the main thread of the process: no limit available
+        old_handler = None
+    try:
+        return _dispatch_inner(case)
+    except CaseTimeout:
+        return {"case": {k: case[k] for k in case if k != "cfg_kw"}, "monitors": {}, "evals": 0,
+                "cycles_budget": case["cfg_kw"].get("max_cycles"),
+                "exc": {"type": "Timeout", "where": "optimize", "msg": f"the run did not finish within {CASE_TIMEOUT_S} s"}}
+    finally:
+        if old_handler is not None:
+            signal.alarm(0)
+            signal.signal(signal.SIGALRM, old_handler)
+
+
+def _dispatch_inner(case):
     try:
         if case.get("scenario") == "xproc":
             return run_xproc([case])[0]
@@ -662,10 +694,11 @@ def build_cases(tier, seed):
                             cases.append(dict(opt=opt, cfg_name=cfg_name, cfg_kw=kw, kind=kind, direction=direction, seed=sd,
                                               mode=None, scenario="single", scale=sc))
         # integer-coded tasks, a longer budget (a population that collapses onto one point needs a few cycles to do so)
-        for kind in (["discrete", "perm"] if tier == "quick" else INTCODED):
+        for kind in (["discrete", "perm", "binary"] if tier == "quick" else INTCODED):
             for direction in ("min", "max"):
-                cases.append(dict(opt=opt, cfg_name=cfg_name, cfg_kw=dict(base, max_cycles=10), kind=kind, direction=direction, seed=seeds[0],
-                                  mode=None, scenario="single", scale=1.0))
+                for sd in seeds[:2]:
+                    cases.append(dict(opt=opt, cfg_name=cfg_name, cfg_kw=dict(base, max_cycles=10), kind=kind, direction=direction, seed=sd,
+                                      mode=None, scenario="single", scale=1.0))
         # stopping options
         for extra in (dict(fitness_error=0.5), dict(fitness_error=None, early_stopping=dict(patience=2, min_delta=0.5)),
                       dict(fitness_error=1e-9, early_stopping=dict(patience=1, min_delta=1e-3)),
@@ -685,6 +718,9 @@ def build_cases(tier, seed):
             kw = dict(base, max_cycles=2)
             cases.append(dict(opt=opt, cfg_name=cfg_name, cfg_kw=kw, kind="cont3", direction="min", seed=seeds[0], mode="process",
                               workers=base["population_size"] + 1, scenario="single", scale=1.0))
+            for w_ in (9, 16):      # wide thread pools
+                cases.append(dict(opt=opt, cfg_name=cfg_name, cfg_kw=kw, kind="cont3", direction="min", seed=seeds[0], mode="thread",
+                                  workers=w_, scenario="single", scale=1.0))
         # relational scenarios
         for scn in ("repro", "reuse", "setcfg", "duality", "reuse2", "repro0", "setcfg2", "duality_reuse", "reuse3", "reuse_dim"):
             kw = dict(base, max_cycles=3)
@@ -719,7 +755,7 @@ def build_cases(tier, seed):
                                       scenario="single", scale=f"+{extra_n}"))
         # populations well below the documented scale (configurations the validators accept; several optimizers do not run
         # there: only completed runs are looked at, and only for the size and elitism clauses)
-        for frac in (0.45, 0.3):
+        for frac in (0.45, 0.3, 0.15):
             for direction in ("min", "max"):
                 for sd in seeds[:2]:
                     n_small = max(2, int(base["population_size"] * frac))
@@ -758,7 +794,7 @@ def campaign(tier="quick", seed=0, procs=None):
     light = [c for c in cases if c.get("mode") != "process" and c.get("scenario") != "xproc"]
     recs = run_xproc(xproc, ("1", "2") if tier == "quick" else ("1", "2", "3", "4")) if xproc else []
     with ProcessPoolExecutor(procs) as ex:
-        recs += list(ex.map(_dispatch, light, chunksize=8))
+        recs += list(ex.map(_dispatch, light, chunksize=4))
     with ProcessPoolExecutor(max(2, procs // 4)) as ex:
         recs += list(ex.map(_dispatch, heavy, chunksize=4))
     out = {"tier": tier, "seed": seed, "wall": round(time.time() - t0, 1), "records": recs}
